@@ -88,7 +88,9 @@ def _valid_cell(g):
 
 
 def _defect_cell(g):
-    k = g.pick(["unknown", "paren", "empty", "repeat"])
+    k = g.pick(["unknown", "paren", "empty", "repeat", "unknown", "paren", "empty", "repeat", "empty-groups"])
+    if k == "empty-groups":
+        return g.pick(["(), ()", "%s, (), ()" % g.pick(PLAIN), "((), ())", "()"]), k
     if k == "unknown":
         return "%s, Grren" % g.pick(PLAIN), k
     if k == "paren":
